@@ -4,7 +4,7 @@
 (* positionally after the domain; and of typed variables over mixed-type     *)
 (* domains declared in different ways.  One Emit step per program.           *)
 EXTENDS EQLSyntax, Json
-CONSTANT Part      \* "fields" | "types"
+CONSTANT Part      \* "fields" | "types" | "kwonly"
 
 FC(f, style, e) == [f |-> f, style |-> style, e |-> e]
 VarD(cls, decl, fields) == [cls |-> cls, decl |-> decl, fields |-> fields]
@@ -52,7 +52,23 @@ TypeProgs ==
            flats |-> <<>>, bound |-> <<>>] >>
   ])])])
 
-Progs == IF Part = "fields" THEN FieldProgs ELSE TypeProgs
+\* ---- part "kwonly": class K declares its fields in the order a, w, b where w is keyword-only, so its constructor
+\* ---- takes (a, b) positionally: positional values after the domain follow the constructor, not the field list
+KProgs ==
+  Cat([sa \in 1..3 |-> Cat([sb \in 1..3 |-> Cat([sw \in 1..2 |-> Cat([st \in 1..Len(Styles) |->
+    LET oa == Opt(<<LitI(0), LitI(1)>>)[sa]  ob == Opt(<<LitI(0), LitI(2)>>)[sb]  ow == Opt(<<LitI(1)>>)[sw]
+        style == Styles[st]
+        pa == style = "pos" /\ oa # <<>>
+        pb == pa /\ ob # <<>>
+        fields == (IF oa = <<>> THEN <<>> ELSE <<FC("a", IF pa THEN "pos" ELSE "kw", oa[1])>>)
+                  \o (IF ob = <<>> THEN <<>> ELSE <<FC("b", IF pb THEN "pos" ELSE "kw", ob[1])>>)
+                  \o (IF ow = <<>> THEN <<>> ELSE <<FC("w", "kw", ow[1])>>)
+    IN IF style = "pos" /\ ~pa THEN <<>>
+       ELSE << [vars |-> <<VarD("K", "term", fields)>>, desc |-> "entity", sel |-> <<V(1)>>, cond |-> TrueC,
+                flats |-> <<>>, bound |-> <<>>] >>
+  ])])])])
+
+Progs == IF Part = "fields" THEN FieldProgs ELSE IF Part = "types" THEN TypeProgs ELSE KProgs
 VARIABLE k
 Init == k = 0
 Emit == k < Len(Progs) /\ k' = k + 1
